@@ -1,6 +1,10 @@
 //! vpcheck: bounded exhaustive checks of the wow_srp properties. See /verif/DESIGN.md.
 
+mod bench;
+mod c03_extra;
 mod c04;
+mod c05;
+mod c06;
 mod c07_c08;
 mod c09;
 mod c10;
@@ -12,6 +16,7 @@ mod c17;
 mod c18;
 mod ciphers;
 mod common;
+mod logins;
 mod selftest;
 
 use mc::report::Tier;
@@ -29,6 +34,8 @@ fn main() {
     }
     mc::util::install_quiet_panic_hook();
     match args[1].as_str() {
+        "bench" => bench::run(),
+        "witness-search" => c03_extra::witness_search(0),
         "selftest" => {
             if args.len() < 4 {
                 usage();
@@ -48,7 +55,11 @@ fn main() {
             };
             let seed: u64 = std::env::var("VERIF_SEED").ok().and_then(|s| s.parse().ok()).unwrap_or(0);
             let code = match args[2].as_str() {
+                "C01" => logins::run(logins::Oracle::C01, tier, seed),
+                "C03" => logins::run(logins::Oracle::C03, tier, seed),
                 "C04" => c04::run(tier, seed),
+                "C05" => c05::run(tier, seed),
+                "C06" => c06::run(tier, seed),
                 "C07" => c07_c08::run::<c07_c08::Vanilla>(tier, seed),
                 "C08" => c07_c08::run::<c07_c08::Tbc>(tier, seed),
                 "C09" => c09::run(tier, seed),
